@@ -34,7 +34,9 @@ def obs1 (s : NState) (q : String) : String :=
   | none => "bad"
   | some x =>
     if k = 'u' then
-      fmtList ((sortBy (· < ·) (unspentOf L x)).map toString)
+      -- the unspent index keeps one list per transaction hash: a repeated hash (known finding
+      -- C06-duplicate-coinbase) overwrites the entry, so repeated indexes are printed once
+      fmtList ((sortBy (· < ·) (unspentOf L x).eraseDups).map toString)
     else if k = 'a' then
       let es := utxoOf L x
       let es := sortBy (fun (a b : UEntry) => a.txid < b.txid || (a.txid == b.txid && a.idx < b.idx)) es
